@@ -67,13 +67,13 @@ func n(tier string, quick, thorough int) int {
 
 func (Prop) Plan(tier string) []lib.Workload {
 	return []lib.Workload{
-		{Name: "orders", Cases: n(tier, 200, 10000), MinNontrivial: n(tier, 800, 60000), BatchTimeout: 40 * time.Minute},
-		{Name: "mutants", Cases: n(tier, 48, 600), MinNontrivial: n(tier, 100, 1500), BatchTimeout: 40 * time.Minute},
-		{Name: "sync", Cases: n(tier, 64, 1500), MinNontrivial: n(tier, 40, 900), BatchTimeout: 40 * time.Minute},
-		{Name: "faults", Cases: n(tier, 96, 2000), MinNontrivial: n(tier, 50, 1000), BatchTimeout: 40 * time.Minute},
-		{Name: "local", Cases: n(tier, 64, 1000), MinNontrivial: n(tier, 20, 300), BatchTimeout: 40 * time.Minute},
+		{Name: "orders", Cases: n(tier, 200, 10000), MinNontrivial: n(tier, 800, 60000), BatchTimeout: 3 * time.Hour},
+		{Name: "mutants", Cases: n(tier, 48, 600), MinNontrivial: n(tier, 100, 1500), BatchTimeout: 3 * time.Hour},
+		{Name: "sync", Cases: n(tier, 64, 1500), MinNontrivial: n(tier, 40, 900), BatchTimeout: 3 * time.Hour},
+		{Name: "faults", Cases: n(tier, 96, 2000), MinNontrivial: n(tier, 50, 1000), BatchTimeout: 3 * time.Hour},
+		{Name: "local", Cases: n(tier, 64, 1000), MinNontrivial: n(tier, 20, 300), BatchTimeout: 3 * time.Hour},
 		{Name: "edge", Cases: n(tier, 4, 40), MinNontrivial: 40, Batches: 4},
-		{Name: "race", Cases: n(tier, 32, 400), Race: true, MinNontrivial: n(tier, 25, 350), CaseTimeout: 5 * time.Minute, BatchTimeout: 40 * time.Minute},
+		{Name: "race", Cases: n(tier, 32, 400), Race: true, MinNontrivial: n(tier, 25, 350), CaseTimeout: 5 * time.Minute, BatchTimeout: 3 * time.Hour},
 	}
 }
 
